@@ -363,12 +363,12 @@ package virtual
 //@   loop 0 invariant (f.file != nil) == (f.referenceCount > 0)
 //@   ensures no-upload-in-progress: f.frozenDescriptorsCount == 0
 //@ func (*fileBackedFile).virtualTruncate
-//@   props C16
+//@   props C16 C10
 //@   modifies f.cachedDigest, f.size, f.changeID
 //@   ensures success-invalidates-digest: r0 == StatusOK ==> f.cachedDigest == digest.BadDigest && f.size == size && f.changeID != old(f.changeID)
 //@   ensures failure-changes-nothing: r0 != StatusOK ==> f.cachedDigest == old(f.cachedDigest) && f.size == old(f.size) && f.changeID == old(f.changeID)
 //@ func (*fileBackedFile).VirtualWrite
-//@   props C16
+//@   props C16 C10
 //@   at call WriteAt#1 assert not-frozen-while-writing: f.frozenDescriptorsCount == 0 && held(f.lock) == 1
 //@   ensures any-written-byte-invalidates-digest: r0 > 0 ==> f.cachedDigest == digest.BadDigest
 //@ func (*fileBackedFile).VirtualSetAttributes
@@ -385,7 +385,7 @@ package virtual
 //@   ensures frozen-descriptor-consumed-once: success ==> readerclosed(frozenFile) + readerowned(frozenFile) == 1
 //@   ensures digest-computed-from-the-uploaded-reader: true
 //@ func (*fileBackedFile).updateCachedDigest
-//@   props C16
+//@   props C16 C10
 //@   ensures pure-for-readers: readerclosed(frozenFile) == old(readerclosed(frozenFile)) && readerowned(frozenFile) == old(readerowned(frozenFile))
 //@ func (*frozenFileBackedFile).Close
 //@   props C16
